@@ -2,3 +2,51 @@ claimed("C01", "exploration",
   "Seeded simulation of the fault-free world (issuer, notary, relay, verifier, key directory) over go-cose's public API: every signature the run produced must verify in memory and after a wire round trip, for all structure kinds, algorithms and parent kinds. Sampling, not proof; simulation contributes the entropy stream, hop histories and replay/minimisation, not a new quantifier (class W in DESIGN.md).",
   "Trusts Go crypto/math/big and the input model of DESIGN 2.2; RSA keys from a committed pool.",
   "deterministic simulation (seeded runs of the fault-free configuration, tape replay)", "3/C01")
+claimed("C02", "exploration",
+  "Refinement check at the Signer/Verifier seam inside the simulated exchange: at every Sign/Verify call the content bytes equal the reference RFC 9052 Sig_structure computed from the wire bytes, for messages built in memory, decoded from go-cose output, decoded from a foreign peer's non-deterministic encoding, and damaged-but-still-accepted traffic produced by the fault injectors; plus metamorphic invariance under unprotected edits, tag toggling and nil/empty external. Sampling; the simulator contributes populations no table holds (class W).",
+  "Trusts the reference Sig_structure builder (self-tested on the repository vectors) and the input model.",
+  "deterministic simulation (seam refinement against a reference model over seeded runs with wire faults)", "3/C02")
+claimed("C03", "exploration",
+  "Seeded simulation of a corrupting, replaying channel between issuer and verifier: every delivery that still decodes is judged by go-cose's built-in verifier and by an independent reference verdict over the received bytes (iff), plus two lineage invariants that need no crypto oracle. Faults: byte-level, structural at any tree position, splices between messages and structure kinds, signature re-encoding, key substitution, external-data changes; single and double faults.",
+  "Trusts Go crypto verification primitives (shared with go-cose) and the reference Sig_structure/algorithm table; forgeries are not constructed.",
+  "deterministic simulation with fault injection (seeded fault sequences on the wire, reference-model verdict, tape minimisation and replay)", "3/C03")
+claimed("C04", "exploration",
+  "Seeded simulation with recording Signer/Verifier seams whose algorithm is drawn independently of the alg header: mismatch must fail without a call at the seam, injected alg must be inside the signed and emitted bytes, decoded alg must be the one in the raw bytes, and a ledger invariant ties every emitted signature to the algorithm in its protected bytes; includes the signer-fault-then-failover history.",
+  "Caller-supplied raw protected bytes are assumed consistent with the parsed map.",
+  "deterministic simulation (spy seams, fault-then-failover histories, provenance ledger)", "3/C04")
+claimed("C05", "exploration",
+  "Seeded structural and byte-level fault injection on live valid traffic of every kind (incl. nested countersignatures), every damaged input offered to all seven decoders; accepted implies the reference well-formedness predicate written from the property statement. One direction only (converse is C07).",
+  "Trusts the reference predicate; sampling of single/double faults, not the whole byte-string space.",
+  "deterministic simulation with fault injection (structural mutation of in-flight messages, reference acceptance predicate)", "3/C05")
+claimed("C06", "exploration",
+  "Seeded fault injection on messages, signature objects, header buckets, envelopes and COSE_Keys plus random bytes, offered to all nine decoding entry points; every accepted value is pushed through the follow-up operations; oracle = no panic (recover per call) and termination before a watchdog.",
+  "Unrecoverable runtime failures are attributed by the driver; watchdog is the only real-clock read.",
+  "deterministic simulation with fault injection (crash/hang monitors around every library call)", "3/C06")
+claimed("C07", "exploration",
+  "Two-party simulation: an independent reference COSE stack issues conforming messages with tape-chosen encoder freedoms and signs its own wire bytes; go-cose must decode and verify message, signatures and nested countersignatures. No fault is involved and none is claimed (class W).",
+  "Trusts the reference encoder/signer; limits as the property documents them.",
+  "deterministic simulation (independent peer as reference model, seeded encoder choices)", "3/C07")
+claimed("C09", "exploration",
+  "Relay-chain histories: accepted wire messages (mostly third-party, non-canonical) pass 1..6 decode/encode hops keeping or dropping raw header bytes as the tape decides; output compared with the reference prediction, verdict preservation for signatures and countersignatures, canonical form and fixpoint after dropping raw bytes.",
+  "Trusts refcose.PredictReencode as a transcription of the statement.",
+  "deterministic simulation (seeded decode/encode histories against a reference prediction)", "3/C09")
+claimed("C10", "exploration",
+  "Notary simulation over all parent kinds x pointer/value x full/abbreviated x constructed/decoded parents with a recording signer (reference Countersign_structure at the seam) and a faulty channel on the parent (reference verdict over the received parent, benign vs signed-field changes), replay as message signature / other form, refusal of unsigned or payload-less parents.",
+  "For abbreviated forms the reference accepts the countersigner-protected slot as h'' or omitted (the statement does not decide it).",
+  "deterministic simulation with fault injection (seam refinement + reference verdict under parent corruption)", "3/C10")
+claimed("C11", "exploration",
+  "COSE_Signature elements treated as messages on a lossy channel (loss, duplication, reordering, surplus, emptied, corrupted; on the wire or in memory), verifier lists permuted/shortened/lengthened/substituted, erroring signers at any position; oracle = positional reference verdict, call order and content at recording verifiers, all-or-nothing, encode/decode refusal of empty signatures.",
+  "Signers are well-behaved or erroring (empty-returning signers are judged under C20).",
+  "deterministic simulation with fault injection (channel faults on signature elements, signer faults, reference positional verdict)", "3/C11")
+claimed("C12", "exploration",
+  "Producer histories on one shared base Headers value (deep snapshot unchanged, output conforms to the reference envelope rules and is accepted by the verifier with the same values) and a byzantine issuer signing rule-breaking envelopes with valid signatures (accepted implies reference verdict and rules).",
+  "Envelope rules as worded by the property.",
+  "deterministic simulation (shared-state histories, byzantine peer as reference model)", "3/C12")
+claimed("C14", "exploration",
+  "Every key of the simulated world is provisioned through the key directory (Go key -> COSE_Key -> bytes -> COSE_Key -> Go key/signer/verifier) with equality, coordinate-width and sign/verify oracles; rare keys (leading zeros in x, y, d; x = 0 points) come from a biased, tape-driven key search, which is input generation and is called that (class W).",
+  "Trusts Go crypto and math/big.",
+  "deterministic simulation (key-directory habitat, seeded key search)", "3/C14")
+claimed("C15", "exploration",
+  "Key store with fault injection: stored COSE_Keys of every type are corrupted (byte-level and structural) and loaded; accepted implies the reference consistency predicate and a canonical re-encoding fixpoint; Signer()/Verifier() success implies private/public material, permitting key_ops and the algorithm fixed by the key.",
+  "Reference key predicate transcribes the statement; non-bstr coordinate parameters are not judged.",
+  "deterministic simulation with fault injection (storage faults on keys at rest, reference predicate)", "3/C15")
